@@ -183,6 +183,17 @@ Definition implements_retry (e : err) : bool := match e with EWithRetry _ _ _ _ 
 Definition retry_handle (e : err) : option handle := match e with EWithRetry _ _ _ h => Some h | _ => None end.
 Definition is_bare_eof (e : err) : bool := match e with ESent SEOF => true | _ => false end.
 
+(* err.Error() panics: Error (error.go:74), ConnectionError (connect.go) and RequestTimeoutError
+   (error.go:50) call Error() of the error they hold, a nil one included; errorWithRetry promotes
+   Error's. fmt.Errorf renders its text when the wrapper is made and recovers panics of the wrapped
+   value's Error method, so a %w wrapper never panics later. The foreign types of the harness do not
+   call their inner error. *)
+Fixpoint error_panics (e : err) : bool :=
+  match e with
+  | ELib _ e' | EConn _ _ e' | EReqTimeout _ e' | EWithRetry _ _ e' _ => is_nil e' || error_panics e'
+  | _ => false
+  end.
+
 (* ---------- wrapErrorImpl / wrapError / wrapErrorf / wrapErrorWithRetry ---------- *)
 (* [id] is the identity of the *Error allocated at error.go:135 *)
 Definition wrap_error_impl (id : nat) (e : err) : err :=
@@ -486,6 +497,11 @@ Inductive callkind :=
                                             3 U+0000 in topic, 4 PUBACK with flags *)
 | CkKeepAlive (n : N)                    (* KeepAlive (keepalive.go:34-61) ends: 0 the per-ping timeout expires,
                                             1 the parent context is done (cause), 2 the ping's Write fails (cause) *)
+| CkRetryClosed (k : reqkind) (phase2 : bool)
+      (* RetryClient with ResponseTimeout set (so the BaseClient call runs under requestContext, whose
+         Err() is non-nil at all times): the connection ends - cut, peer EOF or local Close - while
+         request k waits for the acknowledgement of its first packet (phase2: of the PUBREL), long
+         before the timeout: the error OnError receives *)
 | CkRetryRetx (k : reqkind) (phase2 : bool) (n : N).
       (* RetryClient with ResponseTimeout: request k is interrupted once (the peer closes before the
          acknowledgement of the first packet, or - phase2, QoS 2 - of the PUBREL), then SetClient +
@@ -530,6 +546,9 @@ Definition call_error (id : nat) (ck : callkind) (cause : err) : err :=
       else if n =? 1 then wrap_error id cause                                 (* keepalive.go:48 *)
       else ping_impl id conn_client (script_of FWrite1 cause)                 (* keepalive.go:56: return err *)
   | CkRetryRetx k phase2 n => retx_error id k phase2 n
+  | CkRetryClosed k phase2 =>
+      (* the select arm `case <-c.connClosed` reports ErrClosedTransport, whatever ctx.Err() says *)
+      req_error id k (script_of (if phase2 then FClosed2 else FClosed1) ENil)
   end.
 
 (* ---------- descriptions of how a value was built (what the harness does with the real
@@ -897,6 +916,8 @@ Definition call_ok (ck : callkind) : bool :=
   | CkNotConnected k => match k with KConnect => false | _ => true end
   | CkServe n => n <=? 4
   | CkKeepAlive n => n <=? 2
+  | CkRetryClosed k phase2 =>
+      match k with KPub2 => true | KPub1 | KSub | KUnsub => negb phase2 | _ => false end
   | CkRetryRetx k phase2 n =>
       ((n =? 1) || (n =? 2))
       && match k with KPub2 => true | KPub1 | KSub | KUnsub => negb phase2 | _ => false end
@@ -927,6 +948,7 @@ Definition call_sentinel (ck : callkind) : sentinel :=
                  else if n =? 3 then SInvalidRune else SInvalidPacket
   | CkKeepAlive _ => SPingTimeout
   | CkRetryRetx _ _ _ => SDeadlineExceeded
+  | CkRetryClosed _ _ => SClosedTransport
   | CkConnectOpt | CkRetryConnectOpt => SClosedTransport (* unused: these use the cause *)
   end.
 
@@ -950,6 +972,22 @@ Fixpoint spec_leaf (d : desc) : option sentinel :=
 
 Definition leaf_is (s : sentinel) (o : option sentinel) : bool :=
   match o with Some s' => sentinel_eqb s s' | None => false end.
+
+(* an expired response timeout is somewhere along the chain: the only places where a
+   RequestTimeoutError may come from *)
+Definition call_rt (ck : callkind) (cause_rt : bool) : bool :=
+  match ck with
+  | CkRetryTimeout _ => true
+  | CkRetryRetx _ _ _ => true
+  | CkRetryPing true FCtx1 => true     (* requestContext wraps also the caller's own cancellation *)
+  | _ => uses_cause ck && cause_rt
+  end.
+Fixpoint spec_has_rt (d : desc) : bool :=
+  match d with
+  | DLib _ d' | DFmt _ d' | DConn _ _ d' => spec_has_rt d'
+  | DCall _ ck c => call_rt ck (spec_has_rt c)
+  | _ => false
+  end.
 
 (* every sentinel written anywhere in a description (an upper bound for what may be reported) *)
 Fixpoint mentions (s : sentinel) (d : desc) : bool :=
